@@ -77,11 +77,25 @@ def ordering_is_unconditional(ctx, rep, rule: str) -> None:
     a tolerance test or any other condition."""
     repo = ctx.repo
     fi = repo.func("matrix_functions:_compute_orthogonal_iterations")
-    sorts = [n for n in ast.walk(fi.node) if isinstance(n, ast.Assign) and any(isinstance(c.func, ast.Attribute) and c.func.attr in ("argsort", "sort") for c in A.calls(n, nested=True))]
+    has_sort = lambda n: any(isinstance(c.func, ast.Attribute) and c.func.attr in ("argsort", "sort") for c in A.calls(n, nested=True))
+    sorts = [n for n in ast.walk(fi.node) if isinstance(n, (ast.Assign, ast.AnnAssign, ast.Return, ast.Expr, ast.AugAssign)) and has_sort(n)]
     top = [n for n in fi.node.body if any(n is s for s in sorts)]
     loops = [i for i, n in enumerate(fi.node.body) if isinstance(n, (ast.While, ast.For))]
     rets = [i for i, n in enumerate(fi.node.body) if isinstance(n, ast.Return)]
-    ok = len(sorts) == 1 and len(top) == 1 and bool(loops) and bool(rets) and loops[-1] < fi.node.body.index(top[0]) < rets[-1]
+    ok = len(sorts) >= 1 and len(top) == len(sorts) and bool(loops) and bool(rets) and all(loops[-1] < fi.node.body.index(t_) <= rets[-1] for t_ in top)
+    if ok:
+        # what is returned is the permuted matrix: the final return's value, with top-level single-assignment names expanded,
+        # is a subscript whose index comes from the argsort
+        ret = fi.node.body[rets[-1]].value
+        for _ in range(3):
+            if isinstance(ret, ast.Name):
+                ds = [s_.value for s_ in fi.node.body if isinstance(s_, ast.Assign) and any(isinstance(t, ast.Name) and t.id == ret.id for t in s_.targets)]
+                if ds:
+                    ret = ds[-1]
+                    continue
+            break
+        order_names = {t.id for s_ in sorts if isinstance(s_, ast.Assign) for t in s_.targets if isinstance(t, ast.Name)}
+        ok = isinstance(ret, ast.Subscript) and (has_sort(ret.slice) or any(isinstance(x, ast.Name) and x.id in order_names for x in ast.walk(ret.slice)))
     rep.ob(rule, "ordering-is-unconditional", ok, fi.loc(sorts[0]) if sorts else fi.loc(), f"{len(sorts)} argsort permutation(s), {len(top)} at the top level of the routine between the iteration and the final return: the ascending order holds for every input (no tolerance gate)", sample=True)
 
 
